@@ -46,7 +46,6 @@ WALLCLOCK_UI = {  # timing, messages, display/server handles, warning latches, f
 # members whose classification is an open question (candidates, see DESIGN.md 5): classified with the stated reason
 REVIEWED = {
     "ri_bs.dt_proposed": "read across steps only in the user-ODE branch of reb_integrator_part2 (user ODE state is not persisted by design)",
-    "ri_mercurius.recalculate_r_crit_this_timestep": "request flag; re-derived in part1 when N_allocated_dcrit < N (set when particles were added)",
 }
 for s_, why in (("callback/opaque user pointer (re-attached by the user)", CALLBACKS), ("scratch, recomputed before use", SCRATCH),
                 ("wall-clock/UI/message state", WALLCLOCK_UI)):
